@@ -1089,11 +1089,17 @@ var _ = constant.MakeBool
 var _ = sort.Strings
 
 func onlyJump(b *ssa.BasicBlock) bool {
-	if len(b.Instrs) != 1 {
-		return false
+	n := 0
+	for _, ins := range b.Instrs {
+		if _, dbg := ins.(*ssa.DebugRef); dbg {
+			continue // debug references (names of locals) have no effect
+		}
+		if _, ok := ins.(*ssa.Jump); !ok {
+			return false
+		}
+		n++
 	}
-	_, ok := b.Instrs[0].(*ssa.Jump)
-	return ok
+	return n == 1
 }
 
 // tryMergeIf avoids forking on `if c { x = v }` style triangles/diamonds whose branch blocks are empty:
